@@ -35,9 +35,17 @@ class AsyncResult(object):
         self._is_exc = is_exc
         self._obj = obj
         self._is_ready = True
-        for cb in self._callbacks:
-            cb(self)
+        callbacks = self._callbacks[:]
         del self._callbacks[:]
+        error = None
+        for cb in callbacks:
+            try:
+                cb(self)
+            except Exception as ex:
+                if error is None:
+                    error = ex
+        if error is not None:
+            raise error
 
     def wait(self):
         """Waits for the result to arrive. If the AsyncResult object has an
